@@ -14,7 +14,7 @@ pub mod error {
     pub enum ErrorKind {
         Format(FormatError),
         InvalidUnicodeCodepointGot(u32),
-        TypeMismatch(&'static str, Vec<ValType>, ValType),
+        TypeMismatch(&'static str, crate::format::Vec<ValType>, ValType),
         RuntimeError(&'static str),
         Other,
     }
@@ -128,7 +128,7 @@ pub mod standins {
         fn from_untyped(v: Val) -> Result<Self> {
             match v {
                 Val::Num(n) => Ok(n.get()),
-                o => Err(Error(ErrorKind::TypeMismatch("number", Vec::new(), o.value_type()))),
+                o => Err(Error(ErrorKind::TypeMismatch("number", crate::format::Vec::new(), o.value_type()))),
             }
         }
     }
@@ -138,11 +138,11 @@ pub mod standins {
                 Val::Num(n) => {
                     let n = n.get();
                     if n.trunc() != n || n < 0.0 || n > 65535.0 {
-                        return Err(Error(ErrorKind::TypeMismatch("u16", Vec::new(), ValType::Num)));
+                        return Err(Error(ErrorKind::TypeMismatch("u16", crate::format::Vec::new(), ValType::Num)));
                     }
                     Ok(n as u16)
                 }
-                o => Err(Error(ErrorKind::TypeMismatch("number", Vec::new(), o.value_type()))),
+                o => Err(Error(ErrorKind::TypeMismatch("number", crate::format::Vec::new(), o.value_type()))),
             }
         }
     }
@@ -151,6 +151,13 @@ pub mod standins {
 pub mod format {
     use crate::error::{Error, ErrorKind::*, Result};
     use crate::standins::{FromUntyped, IStr, Val, ValType};
+    /// Result accumulators: fixed-capacity stand-ins for the heap containers (prelude/fixed.rs).
+    pub type Vec<T> = crate::prelude::fixed::FixedVec<T, 24>;
+    pub type String = crate::prelude::fixed::FixedString<48>;
+    macro_rules! vec {
+        () => { Vec::new() };
+        ($($x:expr),+ $(,)?) => {{ let mut v = Vec::new(); $(v.push($x);)+ v }};
+    }
     //@extract crates/jrsonnet-evaluator/src/stdlib/format.rs :: enum FormatError
     //@extract crates/jrsonnet-evaluator/src/stdlib/format.rs :: impl From<FormatError> for Error
     use FormatError::*;
